@@ -33,12 +33,13 @@ LEVELS = {
     "C14": ("token-level model of the dump parser; theorems: a face loop broken over any number of continuation lines is read back whole "
             "(for every list of faces and every wrapping), negative references contribute the edge's second vertex, vertices of no face "
             "and the edges at them are dropped, density rule; tied to the parser by exact correspondence on dumps written by an "
-            "independent serialiser; numeric fields compared by the oracle", "5/C14",
+            "independent serialiser; numeric fields: rounding to k decimals (Model/Round.v) gives the nearest k-decimal number, exact ties to even, records of at most k decimals stored as written, idempotent, monotone, odd - tied exactly and bit for bit to every stored coordinate, density (numpy's rounding) and multiplier, exact ties and next-to-tie doubles included", "5/C14",
             "Coq theorems on a token-level Gallina model + independent serialiser round-trip"),
     "C19": ("PARTIAL. Proved: vertices are interned by rounded coordinates and ids never change, a ridge walked by the neighbouring region "
             "gets minus the same edge id, cells are stored under |key|; the area sign taken on the doubled vertex list of a closed region is "
             "the region's own, and with the reversal rule every stored cycle has signed area -|area| (one rotational sense, over R); the regions that become "
             "cells are exactly the bounded non-empty ones whose corners are pairwise within the cut-off, independently of corner order. The "
+            "lattice point made from a corner of a ridge is, in exact arithmetic, the corner rounded to three decimals whatever the other end and whichever end of the ridge it is (all ridges and regions meeting in a corner produce one point, within 0.0005 of it); its binary64 evaluation (Model/Round.v) is tied bit for bit to the code. The "
             "lattice-elements model and the cut-off model are tied to the code by exact correspondence (Qhull output handed to both). One cell per kept region "
             "with the region's corners as cycle and mesh consistency are evaluated against scipy's diagram by the oracle", "5/C19",
             "Coq theorems (interning, orientation) + exact correspondence + Voronoi oracle (partial)"),
@@ -46,7 +47,7 @@ LEVELS = {
             "Coq theorems (equilibrium solves / uniqueness) + analytic end-to-end oracle"),
     "C03": ("the same two theorems with b = M T plus C13's placement / finite-difference theorems and the unit-mobility theorems (displacement = elapsed time x F gives velocity F for every non-zero step, forward and backward, any renumbering); end-to-end recovery "
             "from generated motions (forward / backward, unequal steps, independent renumbering incl. id 0) within the tolerance "
-            "implied by the three-decimal rounding", "5/C03", "Coq theorems + generated-motion oracle"),
+            "implied by the three-decimal rounding (theorem: the rounding moves each component by at most 0.0005, to the nearest thousandth)", "5/C03", "Coq theorems + generated-motion oracle"),
     "C06": ("PARTIAL. Proved over R: the stated tangent orientation commutes with rotations, positive scalings and reflections; a rotation of a junction's two equations preserves the squared residual; the multiplier column (1,1) is not rotation invariant (refutation = known finding D3); a change of units (all velocities x k) leaves the adimensional right-hand side unchanged and multiplies the reported system velocity by k. End-to-end invariance of tensions, pressures and coefficient pairs is evaluated by the oracle with tolerances derived from coordinate rounding, circle-fit accuracy and the least-squares perturbation bound, D1 / D3 attributed", "5/C06",
             "Coq theorems (equivariance) + transformed-pair oracle (partial)"),
     "C04": ("PARTIAL. Proved: every pressure equation has one +1 and one -1 at its interface's two cells, flipping the first cell's orientation negates the row; the turning estimate (np.gradient curvature, trapezoid rule) is zero on collinear points however spaced, invariant under translation and uniform scaling by any non-zero factor, and odd under reversal of the storage direction, so that the whole equation does not depend on the direction (over R); zero re-insertion puts 0 exactly at the dropped cells' positions and keeps the other entries in order; pressures reach the cells by dictionary position; a solution of the bordered normal equations is a zero-sum least-squares solution, and on a connected tissue (difference rows linking every cell to the first) the bordered system has no other solution. Tested by the oracle only: side of the centre of curvature, 3% accuracy on uniformly sampled arcs, that numpy's inverse solves the bordered system (against an independent solve; the theorem's premises are checked on the reported pressures), linearity in the tensions, 0.9 correlation (known finding D24)", "5/C04",
